@@ -6,3 +6,5 @@ import Props.C16
 #print axioms C16.while_true_break_not_blocking
 #print axioms C16.pure_sound
 #print axioms C16.try_not_blocking
+#print axioms C16.safe_callables_consistent
+#print axioms C16.safe_callables_no_effect
